@@ -566,7 +566,22 @@ class RoiSubsetStateNd(SubsetState):
         if not self.roi.defined():
             return np.zeros(raw_comps[0].shape, dtype=bool)
 
-        if raw_comps[0].ndim == data.ndim and all([att in data.pixel_component_ids for att in self._atts]):
+        # NOTE: if the view is empty there are no points to test (and no
+        # chunks to apply the pretransform to)
+        if np.size(raw_comps[0]) == 0:
+            return np.zeros(res_shape, dtype=bool)
+
+        # NOTE: a view made of index arrays or a boolean mask can give a result
+        # with the same dimensionality as the data that is nevertheless not
+        # a regular sub-grid, so the shortcut is only valid for views made of slices.
+        if view is None or view is Ellipsis or isinstance(view, slice):
+            view_is_grid = True
+        elif isinstance(view, tuple):
+            view_is_grid = all(isinstance(v, slice) for v in view)
+        else:
+            view_is_grid = False
+
+        if view_is_grid and raw_comps[0].ndim == data.ndim and all([att in data.pixel_component_ids for att in self._atts]):
             # This is a special case - the ROI is defined in pixel space, so we
             # can apply it to a single slice and then broadcast it to all other
             # dimensions. We start off by extracting a slice which takes only
